@@ -11,8 +11,14 @@ EXTENDS Naturals, Sequences, FiniteSets, TLC, Json
 VARIABLES vec, state, delivered
 vars == <<vec, state, delivered>>
 
-Certs == {"generated", "ecdsa", "rsa"}
-Fps   == {"correct", "first-digit", "middle-digit", "last-digit", "sha1-wrong", "sha512-correct"}
+\* "two": two user-supplied certificates (the first one is presented); "two-reconfigured": the same, and
+\* the application then calls SetConfiguration with the two in the other order (refused or not, what is
+\* advertised must stay what is presented)
+Certs == {"generated", "ecdsa", "rsa", "two", "two-reconfigured"}
+\* "unknown-hash": a hash name the implementation does not know, arbitrary value; "unknown-hash-sha256-value":
+\* such a name with the value the SHA-256 fingerprint would have; "absent": no fingerprint attribute at all
+Fps   == {"correct", "first-digit", "middle-digit", "last-digit", "sha1-wrong", "sha512-correct",
+          "unknown-hash", "unknown-hash-sha256-value", "absent"}
 Places == {"media", "session", "both"}
 Space == [cert : Certs, fp : Fps, place : Places, verifyOff : BOOLEAN, verifier : {"answerer", "offerer"}]
 
